@@ -244,6 +244,51 @@ def part_exits(ctx, pairs, cfgs, per_type_cfgs):
     return n, wrapped
 
 
+def part_literals(ctx, pairs, cfgs, per_type_cfgs):
+    """values built from list/tuple/struct literals (`multi` IR nodes): return, abi_encode, event"""
+    exprs, metas = [], []
+    for t, vals in pairs:
+        src, info = X.build_source_lit(t)
+        for v in vals[:3]:
+            exprs.append(X.coq_pack_expr_lit(t, v, info))
+        metas.append((t, vals[:3], src, info))
+    outs = A.coq_strings(exprs, "c06lit", imports=A.IMPORTS + X.PACK_DEF, shard=30)
+    jobs, jm = [], []
+    k = 0
+    for ti, (t, vals, src, info) in enumerate(metas):
+        cases = []
+        for v in vals:
+            parts = X.unpack(outs[k])
+            assert len(parts) == 6, (len(parts), outs[k][:200])
+            k += 1
+            cases.append({"enc": parts})
+        for j in range(per_type_cfgs):
+            cfg = cfgs[(ti * per_type_cfgs + j + 5) % len(cfgs)]
+            jobs.append((src, cfg, t, cases))
+            jm.append((t, vals, src, cfg))
+    with ProcessPoolExecutor(max_workers=4) as ex:
+        results = list(ex.map(X.run_lit_config, jobs, chunksize=2))
+    n = 0
+    for (t, vals, src, cfg), res in zip(jm, results):
+        n += res["n"]
+        if res.get("skipped"):
+            ctx.corr["skipped_too_large"] = ctx.corr.get("skipped_too_large", 0) + 1
+            continue
+        if res["error"]:
+            report(ctx, "correspondence-broken", f"literal-source harness could not run: {res['error'][:200]}",
+                   {"type": A.eth_ty(t), "config": cfg.name, "error": res["error"], "source": src}, "lit-harness-error")
+            continue
+        for m in res["mismatch"]:
+            obs = bytes.fromhex(m["observed"]) if m["observed"] is not None else None
+            exp = bytes.fromhex(m["expected"])
+            report(ctx, "failing-input", f"{m['exit']}: emitted bytes differ from canonical ABI encoding",
+                   {"source": src, "config": cfg.name, "exit": m["exit"], "type": A.eth_ty(t), "value": repr(vals[m["case"]]),
+                    "expected_canonical": m["expected"], "observed": m["observed"], "where": diff_pos(obs, exp),
+                    "calldata": m["calldata"]}, "exit:" + m["exit"])
+    ctx.corr["literal_source_comparisons"] = n
+    return n
+
+
 def part_reasons(ctx, cfgs):
     r = ctx.rng("reasons")
     bounds = [1, 31, 32, 33, 65] if ctx.tier == "quick" else [1, 5, 31, 32, 33, 64, 65, 100]
@@ -431,6 +476,7 @@ def run(ctx):
     t0 = time.time()
     n_eth = part_eth_abi(ctx, wrapped)
     n_reason = part_reasons(ctx, C.quick_configs() if quick else cfgs)
+    n_reason += part_literals(ctx, pairs[::2] if quick else pairs[::2], cfgs, 2 if quick else 3)
     ctx.log(f"reasons: {time.time() - t0:.1f}s")
     zp_ok, zp = part_zero_pad_template(ctx)
     struct_bad = part_encoder_structure(ctx)
